@@ -134,7 +134,7 @@ def run(ctx):
     ctx.mc("MC_Path", cfg, coverage=True,
            label="growing-path machine: lists 0..5 x spellings x roots, single faults, deep paths")
     ctx.require_actions("MC_Path", ["AppendOk", "AppendFault", "AppendBadRoot", "AppendDeep"])
-    events = core.build_events(ctx, gen_inputs(ctx))
+    events = core.build_events(ctx, gen_inputs(ctx) if ctx.quick else core.rounds(ctx, gen_inputs, 8))
     events += core.suite_events(ctx, ["tests/test_wallet_utils.py", "tests/test_base_wallet.py", "tests/test_bip85.py"],
                                 ("PathParse",), len(events))
     for e in events[:1] + events[2000:2001] + events[-2:]:
